@@ -155,6 +155,79 @@ def ldef(name: str, d: Any, type_values: list[int], doc: str) -> str:
 	return '\n'.join(lines)
 
 
+def check_source_map_pure() -> int:
+	"""`Token.SourceMap.make` is modelled as a pure function `mkMap (source, begin, end)` (Lean: `C13.source_map_pure`).
+	That is only right while the real one keeps no state between calls: scan token.py and refuse (→ broken tie) a
+	module-level or class-level mutable container, `global` / `nonlocal`, a caching decorator, or a `SourceMap` method that
+	reads a module-level variable. Returns the number of definitions scanned."""
+	import ast
+	from rogw.tranp.implements.syntax.tranp import token as token_module
+	path = token_module.__file__
+	with open(path, encoding='utf-8') as f:
+		tree = ast.parse(f.read())
+	containers = (ast.List, ast.Dict, ast.Set, ast.ListComp, ast.DictComp, ast.SetComp)
+	container_calls = {'list', 'dict', 'set', 'defaultdict', 'OrderedDict', 'deque', 'Counter', 'bytearray'}
+
+	def mutable(value: ast.AST | None) -> bool:
+		if value is None:
+			return False
+		if isinstance(value, containers):
+			return True
+		if isinstance(value, ast.Call):
+			fn = value.func
+			name = fn.id if isinstance(fn, ast.Name) else fn.attr if isinstance(fn, ast.Attribute) else ''
+			return name in container_calls
+		return False
+
+	def assigned(body: list[ast.stmt], where: str) -> set[str]:
+		names: set[str] = set()
+		for st in body:
+			targets: list[ast.expr] = []
+			value = None
+			if isinstance(st, ast.Assign):
+				targets, value = st.targets, st.value
+			elif isinstance(st, ast.AnnAssign):
+				targets, value = [st.target], st.value
+			elif isinstance(st, ast.AugAssign):
+				targets, value = [st.target], st.value
+			for t in targets:
+				for n in ast.walk(t):
+					if isinstance(n, ast.Name):
+						names.add(n.id)
+			if mutable(value):
+				raise Unsupported(f'{where}: mutable container state `{ast.unparse(st)[:80]}` (Token.SourceMap.make is modelled as a pure function)')
+		return names
+
+	module_vars = assigned(tree.body, 'token.py module level')
+	for n in ast.walk(tree):
+		if isinstance(n, (ast.Global, ast.Nonlocal)):
+			raise Unsupported(f'token.py uses `{ast.unparse(n)}`: hidden state')
+	scanned = 0
+	token_cls = next((n for n in tree.body if isinstance(n, ast.ClassDef) and n.name == 'Token'), None)
+	if token_cls is None:
+		raise Unsupported('class Token not found in token.py')
+	assigned(token_cls.body, 'class Token')
+	sm_cls = next((n for n in token_cls.body if isinstance(n, ast.ClassDef) and n.name == 'SourceMap'), None)
+	if sm_cls is None:
+		raise Unsupported('class Token.SourceMap not found')
+	# NamedTuple field declarations are annotations without value; anything with a container value is refused
+	assigned(sm_cls.body, 'class Token.SourceMap')
+	for fn in sm_cls.body:
+		if not isinstance(fn, ast.FunctionDef):
+			continue
+		scanned += 1
+		for dec in fn.decorator_list:
+			text = ast.unparse(dec)
+			if 'cache' in text.lower() or 'memo' in text.lower():
+				raise Unsupported(f'Token.SourceMap.{fn.name} has a caching decorator `{text}`')
+		for n in ast.walk(fn):
+			if isinstance(n, ast.Name) and n.id in module_vars:
+				raise Unsupported(f'Token.SourceMap.{fn.name} reads the module-level variable `{n.id}`: hidden state')
+			if isinstance(n, ast.Attribute) and isinstance(n.value, ast.Name) and n.value.id == 'cls' and isinstance(n.ctx, ast.Store):
+				raise Unsupported(f'Token.SourceMap.{fn.name} assigns to `cls.{n.attr}`: hidden state')
+	return scanned
+
+
 def render() -> tuple[str, int]:
 	from data.syntax.gram_tokenizer import gram_tokenizer
 	from rogw.tranp.implements.syntax.tranp.token import SpecialSymbols, TokenDefinition, TokenDomains, TokenTypes
@@ -169,11 +242,13 @@ def render() -> tuple[str, int]:
 	type_values = sorted({v for _, v in types})
 	py = TokenDefinition()
 	gram = gram_tokenizer()._definition
+	pure_methods = check_source_map_pure()
 	parts = [
 		'/-',
 		'  GENERATED by verif/translate/gen_token_def.py — do not edit.',
 		'  Source: rogw/tranp/implements/syntax/tranp/token.py (TokenDefinition(), TokenTypes, TokenDomains, SpecialSymbols)',
 		'          data/syntax/gram_tokenizer.py (gram_tokenizer()._definition)',
+		f'  Token.SourceMap purity scan: {pure_methods} methods, no module/class-level mutable state, no global/nonlocal, no caching decorator',
 		'-/',
 		'import Tranp.Model.Lexer',
 		'',
